@@ -79,15 +79,16 @@ CasesI == IF "I" \notin GenKinds THEN {} ELSE
 (* d = 4, int and unsigned only: every numerator 0 .. 255 (and, for int, its negative)   *)
 (* against every divisor 1 .. 255, packed four numerators per vector; plus large         *)
 (* operands up to 2^30.  C++ integer division truncates; TLA+ defines it directly.       *)
-SweepSmall ==
+SweepSmall == IF "W" \notin GenKinds THEN {} ELSE
   UNION { { CaseT("S", <<n, n + 64, n + 128, n + 192>>, <<0, 0, 0, 0>>, s, 1, 0, <<"sweep", "sweepmul">>, <<"i", "u">>),
-            CaseT("S", <<-n, -(n + 64), -(n + 128), -(n + 192)>>, <<0, 0, 0, 0>>, s, 1, 0, <<"sweep", "sweepmul">>, <<"i">>),
-            CaseT("S", <<n, n + 64, n + 128, n + 192>>, <<0, 0, 0, 0>>, -s, 1, 0, <<"sweep", "sweepmul">>, <<"i">>) }
+            CaseT("S", <<-n, -(n + 64), -(n + 128), -(n + 192)>>, <<0, 0, 0, 0>>, s, 1, 0, <<"sweep", "sweepmul">>, <<"i">>) }
+          \cup (IF s % 7 = 0 \/ s < 16 \/ SweepDivisors = Div255       \* negative divisors: a sample, all in the full sweep
+                THEN { CaseT("S", <<n, n + 64, n + 128, n + 192>>, <<0, 0, 0, 0>>, -s, 1, 0, <<"sweep", "sweepmul">>, <<"i">>) } ELSE {})
           : n \in 0 .. 63, s \in SweepDivisors }
 BigNums == << <<1000, 4999, 9999, 10000>>, <<65535, 65536, 99991, 1000003>>, <<16777215, 16777216, 16777217, 123456789>>,
               <<1073741823, 1073741824, 1073741789, 536870912>>, <<2401, 4802, 9604, 117649>>, <<999, 9801, 5041, 6889>> >>
 BigDivs == {1, 2, 3, 7, 10, 49, 98, 99, 100, 255, 256, 1000, 4999, 9999, 10000, 65535, 65537, 1000003, 1073741823}
-SweepBig ==
+SweepBig == IF "W" \notin GenKinds THEN {} ELSE
   UNION { { CaseT("S", BigNums[i], <<0, 0, 0, 0>>, s, 1, 0, <<"sweep">>, <<"i", "u">>),
             CaseT("S", [k \in 1 .. 4 |-> -BigNums[i][k]], <<0, 0, 0, 0>>, s, 1, 0, <<"sweep">>, <<"i">>) }
           : i \in 1 .. Len(BigNums), s \in BigDivs }
